@@ -273,9 +273,9 @@ var w10Scenarios = map[string][]w10Scenario{
 				Tags []string
 			}
 			sch := z.Struct(z.Schema{
-				"name": z.Preprocess(func(s string, ctx z.Ctx) (string, error) { return strings.TrimSpace(s), nil }, z.String().Min(5)),
+				"name": z.Preprocess(func(s *string, ctx z.Ctx) (string, error) { return strings.TrimSpace(*s), nil }, z.String().Min(5)),
 				"age":  z.Int().GT(18),
-				"tags": z.Preprocess(func(s []string, ctx z.Ctx) ([]string, error) { return s, nil }, z.Slice(z.String()).Min(2)),
+				"tags": z.Preprocess(func(s *[]string, ctx z.Ctx) ([]string, error) { return *s, nil }, z.Slice(z.String()).Min(2)),
 			})
 			seen := map[string]int{}
 			for i := 0; i < 300; i++ {
@@ -283,7 +283,7 @@ var w10Scenarios = map[string][]w10Scenario{
 				m := sch.Validate(&v)
 				seen[w10Keys(m)+fmt.Sprintf(" -> %+v", v)]++
 			}
-			if len(seen) != 1 {
+			if _, both := seen["age name tags -> {Name:ab Age:3 Tags:[x]}"]; len(seen) != 1 || !both {
 				return "result-depends-on-field-order|Validate|preprocess-next-to-a-failing-sibling", map[string]any{"schema": "{name: Preprocess(trim, String().Min(5)), age: Int().GT(18), tags: Preprocess(id, Slice(String()).Min(2))}", "value": `{Name: " ab ", Age: 3, Tags: [x]}`, "distinct_outcomes_over_300_runs": fmt.Sprint(seen)}
 			}
 			return "", nil
@@ -456,6 +456,40 @@ var w10Scenarios = map[string][]w10Scenario{
 			return "", nil
 		},
 	},
+	"C14": {
+		// a whole number in a string leaf: the same record as a Go map (int) and as a JSON document
+		func() (string, map[string]any) {
+			type rec struct {
+				Code string `json:"code"`
+				Zip  string `json:"zip"`
+			}
+			var narrowSig string
+			var narrowDet map[string]any
+			for _, n := range []int{7, 123, 999999, 12345678, 20240131, 1700000000, -31536000, 9007199254740993} {
+				var viaMap, viaJSON, viaBody rec
+				sch := z.Struct(z.Schema{"code": z.String().Min(1), "zip": z.String()})
+				mm := sch.Parse(map[string]any{"code": n, "zip": "z"}, &viaMap)
+				doc := fmt.Sprintf(`{"code": %d, "zip": "z"}`, n)
+				mj := sch.Parse(zjson.Decode(strings.NewReader(doc)), &viaJSON)
+				r, _ := http.NewRequest("POST", "/x", strings.NewReader(doc))
+				r.Header.Set("Content-Type", "application/json")
+				mb := sch.Parse(zhttp.Request(r), &viaBody)
+				if len(mm) != 0 || len(mj) != 0 || len(mb) != 0 || viaMap != viaJSON || viaMap != viaBody {
+					sig := "front-end-destination-differs|json|whole-number-in-a-string-leaf"
+					if len(mm) == 0 && len(mj) == 0 && len(mb) == 0 && viaJSON == viaBody && viaJSON.Zip == "z" && viaMap.Code == fmt.Sprint(n) && viaJSON.Code == fmt.Sprintf("%v", float64(n)) && strings.Contains(viaJSON.Code, "e+") {
+						// narrow class: exactly the %v text of the float64 the JSON decoder stores the literal in, in exponent notation
+						sig = "front-end-destination-differs|json|whole-number-of-7-or-more-digits-in-a-string-leaf-printed-in-exponent-notation"
+					}
+					det := map[string]any{"schema": "{code: String().Min(1), zip: String()}", "record": fmt.Sprintf("{code: %d, zip: z}", n), "go_map": fmt.Sprintf("%+v %s", viaMap, w10Keys(mm)), "json_document": fmt.Sprintf("%+v %s", viaJSON, w10Keys(mj)), "zhttp_json_body": fmt.Sprintf("%+v %s", viaBody, w10Keys(mb))}
+					if !strings.HasSuffix(sig, "exponent-notation") {
+						return sig, det
+					}
+					narrowSig, narrowDet = sig, det // every value is looked at: anything outside the narrow class is reported first
+				}
+			}
+			return narrowSig, narrowDet
+		},
+	},
 	"C17": {
 		// the parameters of a test belong to that test: what a MessageFunc writes into the issue of one test never shows on another schema
 		func() (string, map[string]any) {
@@ -595,14 +629,14 @@ var w10Scenarios = map[string][]w10Scenario{
 			}
 			refuse := errors.New("refused")
 			sch := z.Struct(z.Schema{
-				"tags": z.Preprocess(func(s []string, ctx z.Ctx) ([]string, error) { return nil, refuse }, z.Slice(z.String())),
-				"name": z.Preprocess(func(s string, ctx z.Ctx) (string, error) { return "", refuse }, z.String()),
+				"tags": z.Preprocess(func(s *[]string, ctx z.Ctx) ([]string, error) { return nil, refuse }, z.Slice(z.String())),
+				"name": z.Preprocess(func(s *string, ctx z.Ctx) (string, error) { return "", refuse }, z.String()),
 			})
 			v := doc{Tags: []string{"a", "b"}, Name: "keep"}
 			m := sch.Validate(&v)
 			name := "keep"
-			l := z.Preprocess(func(s string, ctx z.Ctx) (string, error) { return "overwritten", refuse }, z.String()).Validate(&name)
-			if !reflect.DeepEqual(v, doc{Tags: []string{"a", "b"}, Name: "keep"}) || name != "keep" || len(m) == 0 || len(l) != 1 {
+			l := z.Preprocess(func(s *string, ctx z.Ctx) (string, error) { return "overwritten", refuse }, z.String()).Validate(&name)
+			if !reflect.DeepEqual(v, doc{Tags: []string{"a", "b"}, Name: "keep"}) || name != "keep" || len(m["tags"]) != 1 || m["tags"][0].Err != refuse || len(m["name"]) != 1 || len(l) != 1 || l[0].Err != refuse {
 				return "validate-modified-the-value|refusing-preprocess", map[string]any{"schema": "{tags: Preprocess(fn returning an error, Slice(String())), name: Preprocess(fn returning an error, String())}", "value_before": "{Tags: [a b], Name: keep}", "value_after": fmt.Sprintf("%+v / %q", v, name), "issues": w10Keys(m)}
 			}
 			return "", nil
